@@ -25,6 +25,23 @@ def impl(case):
         out["charset_mutated"] = out.get("charset_mutated", False) or cs != set(case["charset"])
     except Exception as e:  # noqa
         return {"exc_build": type(e).__name__, "msg": str(e)[:200]}
+    # structural: the FSM interegular produced, serialised, and the automaton built from it (mirror model Model/FsmWfsa.lean)
+    try:
+        import interegular
+        from interegular.fsm import anything_else
+        fsm = interegular.parse_pattern(case["pattern"]).to_fsm()
+        cs0 = set(case["charset"])
+        expand = {}
+        for i in fsm.states:
+            for a in fsm.map[i]:
+                bt = fsm.alphabet.by_transition[a]
+                expand[int(a)] = sorted(cs0 - set(x for x in fsm.alphabet if isinstance(x, str))) if anything_else in bt else sorted(x for x in bt if isinstance(x, str))
+        out["fsm"] = {"initial": int(fsm.initial), "states": sorted(int(q) for q in fsm.states), "finals": sorted(int(q) for q in fsm.finals),
+                      "map": [[int(i), int(a), int(j)] for i in fsm.states for a, j in fsm.map[i].items()],
+                      "live": sorted(int(q) for q in fsm.states if fsm.islive(q)), "expand": [[a, l] for a, l in sorted(expand.items())]}
+        out["wfsa"] = common.enc_wfsa(m, "Float")
+    except Exception as e:  # noqa
+        out["fsm"] = {"exc": type(e).__name__, "msg": str(e)[:200]}
     acc = []
     for s in case["strings"]:
         try:
@@ -88,7 +105,23 @@ def run(ctx):
     impl_res = ctx["run_impl"](cases, hashseeds, 60)
     oracle = common.re_batch([{"re": regexgen.desugar(tuple(c["ast"]) if isinstance(c["ast"], list) else c["ast"], c["charset"]), "strings": c["strings"]} for c in cases])
     semantic, samples = [], []
+    structural = []
     evaluations = traces = 0
+    fops, fidx = [], []
+    for c in cases:
+        r0 = impl_res[hashseeds[0]].get(c["id"]) or {}
+        if isinstance(r0.get("fsm"), dict) and "states" in r0["fsm"] and "wfsa" in r0:
+            fops.append(dict(r0["fsm"], op="fsm_to_wfsa"))
+            fidx.append((c, r0["wfsa"]))
+    for (c, got), r in zip(fidx, ctx["lean"](fops)):
+        if "error" in r:
+            raise common.DriverError(r["error"])
+        evaluations += 1
+        ok, why = common.same_wfsa(r, got)
+        if not ok:
+            structural.append({"op": "fsm_to_wfsa", "what": why, "pattern": c["pattern"], "charset": c["charset"], "model": r, "impl": got})
+        else:
+            traces += 1
     nontrivial = set()
     stats = {"accepted": 0, "rejected": 0, "states_mass_checked": 0, "top_ops": {}}
     for c, o in zip(cases, oracle):
@@ -135,8 +168,8 @@ def run(ctx):
         "evaluations": evaluations, "distinct_nontrivial": len(nontrivial),
         "rule": "seeded regex ASTs (literals, classes, negated classes, ranges, dot, alternation, concatenation, star, plus, optional, bounded repetition, \\d \\w \\s, case-insensitive literals incl. ß) "
                 "x character sets (incl. newline, '.', ß) x ALL strings over the set up to length 2–4; non-trivial = distinct (pattern, charset) accepting some and rejecting some string",
-        "samples": samples, "traces": traces, "semantic": semantic, "structural": [],
-        "extra": {"hashseeds": hashseeds, "stats": stats, "cases": len(cases)},
+        "samples": samples, "traces": traces, "semantic": semantic, "structural": structural,
+        "extra": {"hashseeds": hashseeds, "stats": stats, "cases": len(cases), "fsm_structural": len(fops)},
         "assumptions": ["the harness' desugaring of the surface syntax (classes, dot = everything but newline, escapes, (?i:…) = {c, c.lower(), c.upper()} single characters) is the reading of 'the supported syntax'; "
                         "it is the trusted part of this oracle, the matcher itself is verified"],
         "trusted": ["interegular (third-party regex→FSM) is validated per run through this end-to-end comparison"],
